@@ -246,6 +246,10 @@ func (s *socket) onPacket(data *packet.Packet) {
 		s.OnClose("parse error")
 	case packet.MESSAGE:
 		s.Emit("data", data.Data)
+		if s.ReadyState() != "open" {
+			// closed by a data listener: the message event is not delivered
+			return
+		}
 		s.Emit("message", data.Data)
 	}
 }
